@@ -155,7 +155,9 @@ def _class_reps(items):
         return ['a', '0', '_']
     cs = sorted(x for x in c if x != 'DIGIT*')
     reps = []
-    if cs:
+    if cs and len(cs) <= 12:
+        reps = list(cs)
+    elif cs:
         reps = [cs[0], cs[-1]]
         if len(cs) > 2:
             reps.append(cs[len(cs) // 2])
@@ -187,7 +189,7 @@ def samples(p, limit=400):
             elif op in (sre_c.MAX_REPEAT, sre_c.MIN_REPEAT) or \
                     str(op) == 'POSSESSIVE_REPEAT':
                 lo, hi, sub = av
-                subs = gen(sub)[:6] or ['']
+                subs = gen(sub)[:12] or ['']
                 reps = []
                 counts = [lo]
                 if hi is sre_c.MAXREPEAT or hi > lo:
@@ -198,7 +200,7 @@ def samples(p, limit=400):
                     if c == 0:
                         reps.append('')
                     else:
-                        for s in subs[:4]:
+                        for s in (subs if c == 1 else subs[:4]):
                             reps.append(s * c)
                         if len(subs) > 1 and c > 1:
                             reps.append(''.join(
